@@ -82,6 +82,8 @@ def generate(rng, n, tier):
             if c["solver"] in ("DE", "DE2"):
                 solve["kw"] = dict(strategy=c["strategy"], CrossProbability=rng.choice([0.9, 0.5, 1.0]), ScalingFactor=rng.choice([0.8, 0.5]))
                 c["de_kw"] = True
+            elif rng.random() < 0.6:      # the same for the options of Nelder-Mead / Powell: given once to Solve, in force after a restore
+                solve["kw"] = rng.choice([dict(adaptive=True), dict(radius=0.3)]) if c["solver"] == "NM" else rng.choice([dict(xtol=1e-2), dict(imax=3)])
             c["pre"] = cfg + [dict(op="SetLimits", g=G_, e=None, new=False), solve]
             c["post"] = []
             c["action"] = "midsolve"
